@@ -135,7 +135,7 @@ class C17(Prop):
     models = ("C17_Model",)
     packages = {"internal": "internal", "server": "internal/app/referenceserver", "client": "internal/app/referenceclient"}
     kinds = {"c17.msg": "internal", "c17.stream": "internal", "c17.writer": "server", "c17.live": "server",
-             "c17.request": "client"}
+             "c17.request": "client", "c17.cache": "server"}
     rule = ("c17.msg: every data kind x compression 0..8 x payloads; c17.stream: every flags value 0..255 (and >255), item lists of "
             "length <=5 with absent / equal / differing explicit lengths, nil payloads, each of the 6 compressions per item, unknown "
             "compressions; c17.writer: every action sequence of length <=3 over {Header.Add, Header.Del, WriteHeader, Write, Flush, "
@@ -242,7 +242,8 @@ class C17(Prop):
 
     def describe(self, case, g, m):
         return {"c17.msg": "message encoder", "c17.stream": "stream encoder", "c17.writer": "raw-or-normal arbitration (recorder)",
-                "c17.live": "raw response over the wire", "c17.request": "raw request substitution"}[case[0]] + \
+                "c17.live": "raw response over the wire", "c17.request": "raw request substitution",
+                "c17.cache": "streaming interceptor / cached first request"}[case[0]] + \
             ": implementation differs from the proved model"
 
     # ---- generation ---------------------------------------------------------------------------
@@ -309,6 +310,18 @@ class C17(Prop):
         for i in range(900 if not big else 12000):
             cases.append(["c17.request", None, 1 + i % 2, self._rawreq(g, rng)])
         cases += self._target_cases(g, rng, big)
+        # the streaming interceptor: every script of length <= 3 (thorough 4) over {request, request with raw response,
+        # io.EOF, another error} x procedure x 0..4 Receives x normal response started or not
+        alpha = [[1, b"a", 0], [1, b"b", 1], [0, 0], [0, 7]]
+        for ln in range(0, (3 if not big else 4) + 1):
+            for script in itertools.product(alpha, repeat=ln):
+                for proc in (0, 3, 4, 5):
+                    for n in range(0, 5):
+                        st = 1 if (len(cases) % 3 == 0) else 0
+                        cases.append(["c17.cache", None, proc, st, _copy(list(script)), n])
+        for _ in range(300 if not big else 5000):
+            script = [rng.choice([[1, g.data(), rng.choice([0, 0, 0, 1])], [0, rng.choice([0, 0, 1, 2, 9])]]) for _ in range(rng.randint(0, 7))]
+            cases.append(["c17.cache", None, rng.choice([0, 3, 4, 5]), rng.choice([0, 0, 1]), script, rng.randint(0, 8)])
         return self.finalize(cases)
 
     @staticmethod
